@@ -8,11 +8,12 @@
 
     Platform behaviour transcribed here (tied by the C18 correspondence, not proved about
     CPython / glibc / lxml):
-    - glibc strftime %Y does not zero-pad, %m %d %H %M %S are two digits;
-    - datetime.strptime: the regular expressions of CPython 3.12 _strptime.py (ordered
-      alternatives, backtracking, IGNORECASE, Unicode decimal digits for the digit class),
-      all of the input must be consumed, then int() on each group, then the field ranges
-      of the datetime constructor;
+    - the regular expression _w3cdtf_pattern used with re.match: the digit class matches
+      every Unicode decimal digit, the dollar sign also matches before one final newline,
+      T and Z are case sensitive; int() on each group; then the field ranges of the
+      datetime constructor (ValueError);
+    - aware.astimezone(utc) and datetime + timedelta raise OverflowError outside years
+      1..9999;
     - int() on text: Unicode decimal digits, single underscores between digits, optional
       sign, surrounding white space, at most 4300 digits; str() of an int refuses more
       than 4300 digits;
@@ -195,12 +196,10 @@ Definition c_T : N := 84%N.
 Definition c_Z : N := 90%N.
 Definition c_plus : N := 43%N.
 
-(** glibc %Y: plain decimal, no padding (years 1..9999 give 1 to 4 digits). *)
-Definition show_year (y : Z) : str := dec_of_N (Z.to_N y).
-
-(** value.strftime with the format %Y-%m-%dT%H:%M:%SZ -- tzinfo and microsecond play no part. *)
-Definition strftime (t : datetime) : str :=
-  show_year (dt_year t) ++ c_dash :: pad2 (dt_month t) ++ c_dash :: pad2 (dt_day t) ++
+(** The text written by _set_element_datetime: percent-formatting with 04d and 02d fields
+    (years 1..9999) and the suffix Z. *)
+Definition fmt_dt (t : datetime) : str :=
+  pad4 (dt_year t) ++ c_dash :: pad2 (dt_month t) ++ c_dash :: pad2 (dt_day t) ++
   c_T :: pad2 (dt_hour t) ++ c_colon :: pad2 (dt_minute t) ++ c_colon :: pad2 (dt_second t) ++ [c_Z].
 
 (** str(datetime) = isoformat with a blank; used only when a datetime is assigned to a text
@@ -251,11 +250,24 @@ Definition set_text (p : prop) (v : pyv) (st : cpstate) : cpstate * res unit :=
 Definition needs_xsi (p : prop) : bool :=
   match p with Created | Modified => true | _ => false end.
 
-(** _set_element_datetime *)
+(** value.astimezone(timezone.utc).replace(tzinfo=None) for an aware value (utcoffset in
+    whole seconds); a naive value is taken as it is. *)
+Definition to_utc_naive (d : pydt) : res datetime :=
+  match p_tz d with
+  | None => Ok (p_dt d)
+  | Some o =>
+      let r := add_seconds (p_dt d) (- o)%Z in
+      if in_py_range r then Ok r else Err OverflowErr
+  end.
+
+(** _set_element_datetime: the conversion happens before get_or_add. *)
 Definition set_datetime (p : prop) (v : pyv) (st : cpstate) : cpstate * res unit :=
   match v with
   | VDt d =>
-      (upd p (fun c => mkChild (c_tag c) (strftime (p_dt d)) (c_xsi c || needs_xsi p)) st, Ok tt)
+      match to_utc_naive d with
+      | Ok t => (upd p (fun c => mkChild (c_tag c) (fmt_dt t) (c_xsi c || needs_xsi p)) st, Ok tt)
+      | Err e => (st, Err e)
+      end
   | _ => (st, Err ValueErr)
   end.
 
@@ -268,7 +280,6 @@ Definition set_revision (v : pyv) (st : cpstate) : cpstate * res unit :=
     end in
   match v with
   | VInt z => if (z <? 1)%Z then (st, Err ValueErr) else write (py_str_int z)
-  | VBool true => write (Ok s_True)
   | _ => (st, Err ValueErr)
   end.
 
@@ -279,102 +290,7 @@ Definition set_prop (p : prop) (v : pyv) (st : cpstate) : cpstate * res unit :=
   | KRev => set_revision v st
   end.
 
-(** ---- strptime ---- *)
-
-Inductive cc := CRng (lo hi : N) | CDig | CTwo (a b : N).
-Definition cc_match (k : cc) (c : N) : bool :=
-  match k with
-  | CRng lo hi => ((lo <=? c) && (c <=? hi))%N
-  | CDig => is_udigit c
-  | CTwo a b => ((c =? a) || (c =? b))%N
-  end.
-
-(** One alternative: a fixed sequence of character classes. *)
-Fixpoint match_alt (a : list cc) (s : str) : option (str * str) :=
-  match a with
-  | [] => Some ([], s)
-  | k :: a' =>
-      match s with
-      | c :: s' =>
-          if cc_match k c then
-            match match_alt a' s' with
-            | Some (cap, rest) => Some (c :: cap, rest)
-            | None => None
-            end
-          else None
-      | [] => None
-      end
-  end.
-
-Inductive item := ILit (k : cc) | IField (alts : list (list cc)).
-
-(** Ordered alternatives of one group with continuation [k] for the rest of the pattern:
-    the first alternative whose match lets the continuation succeed (backtracking). *)
-Fixpoint try_alts (k : str -> option (list str * str)) (al : list (list cc)) (s : str)
-  : option (list str * str) :=
-  match al with
-  | [] => None
-  | a :: al' =>
-      match match_alt a s with
-      | Some (cap, rest) =>
-          match k rest with
-          | Some (caps, r) => Some (cap :: caps, r)
-          | None => try_alts k al' s
-          end
-      | None => try_alts k al' s
-      end
-  end.
-
-(** Backtracking prefix match: captured groups in order and the unconsumed rest. *)
-Fixpoint match_pat (p : list item) (s : str) : option (list str * str) :=
-  match p with
-  | [] => Some ([], s)
-  | ILit k :: p' =>
-      match s with
-      | c :: s' => if cc_match k c then match_pat p' s' else None
-      | [] => None
-      end
-  | IField alts :: p' => try_alts (match_pat p') alts s
-  end.
-
-Definition f_Y : item := IField [[CDig; CDig; CDig; CDig]].
-Definition f_m : item := IField [[CRng 49 49; CRng 48 50]; [CRng 48 48; CRng 49 57]; [CRng 49 57]].
-Definition f_d : item :=
-  IField [[CRng 51 51; CRng 48 49]; [CRng 49 50; CDig]; [CRng 48 48; CRng 49 57]; [CRng 49 57];
-          [CRng 32 32; CRng 49 57]].
-Definition f_H : item := IField [[CRng 50 50; CRng 48 51]; [CRng 48 49; CDig]; [CDig]].
-Definition f_M : item := IField [[CRng 48 53; CDig]; [CDig]].
-Definition f_S : item := IField [[CRng 54 54; CRng 48 49]; [CRng 48 53; CDig]; [CDig]].
-Definition l_dash : item := ILit (CRng 45 45).
-Definition l_colon : item := ILit (CRng 58 58).
-Definition l_T : item := ILit (CTwo 84 116).       (* IGNORECASE *)
-
-Definition tmpl_full : list item :=
-  [f_Y; l_dash; f_m; l_dash; f_d; l_T; f_H; l_colon; f_M; l_colon; f_S].
-Definition tmpl_date : list item := [f_Y; l_dash; f_m; l_dash; f_d].
-Definition tmpl_ym : list item := [f_Y; l_dash; f_m].
-Definition tmpl_y : list item := [f_Y].
-Definition templates : list (list item) := [tmpl_full; tmpl_date; tmpl_ym; tmpl_y].
-
-Definition nth_int (caps : list str) (i : nat) (dflt : Z) : option Z :=
-  match nth_error caps i with
-  | Some s => py_int s
-  | None => Some dflt
-  end.
-
-(** datetime.strptime(s, template): None stands for ValueError. *)
-Definition strptime (tmpl : list item) (s : str) : option datetime :=
-  match match_pat tmpl s with
-  | Some (caps, []) =>
-      match nth_int caps 0 1900, nth_int caps 1 1, nth_int caps 2 1,
-            nth_int caps 3 0, nth_int caps 4 0, nth_int caps 5 0 with
-      | Some y, Some mo, Some d, Some h, Some mi, Some sec =>
-          let t := mkDT y mo d h mi sec in
-          if valid_datetime t && in_py_range t then Some t else None
-      | _, _, _, _, _, _ => None
-      end
-  | _ => None
-  end.
+(** ---- reading W3CDTF text ---- *)
 
 (** _offset_dt: sign, two digits, colon, two digits; plus means subtract. *)
 Definition offset_dt (t : datetime) (off : str) : res datetime :=
@@ -394,15 +310,122 @@ Definition offset_dt (t : datetime) (off : str) : res datetime :=
   | _ => Err ValueErr
   end.
 
-(** _parse_W3CDTF_to_datetime: every template is tried, the last success wins. *)
+(** The dollar sign: end of text, or one final newline. *)
+Definition is_nil (s : str) : bool := match s with [] => true | _ => false end.
+Definition at_end (s : str) : bool :=
+  match s with
+  | [] => true
+  | c :: r => (c =? 10)%N && is_nil r
+  end.
+
+(** int() of a two-digit group (any Unicode decimal digits). *)
+Definition two_ud (a b : N) : option Z :=
+  match udigit_val a, udigit_val b with
+  | Some x, Some y => Some (10 * x + y)%Z
+  | _, _ => None
+  end.
+
+(** Optional zone designator, then the end.  None: no match.  Some None: nothing or Z.
+    Some (Some off): a signed hh:mm designator (six characters). *)
+Definition tz_end (s : str) : option (option str) :=
+  if at_end s then Some None
+  else match s with
+       | c :: r =>
+           if (c =? 90)%N then (if at_end r then Some None else None)
+           else if ((c =? 43) || (c =? 45))%N then
+             match r with
+             | h1 :: h2 :: co :: m1 :: m2 :: r' =>
+                 if is_udigit h1 && is_udigit h2 && (co =? 58)%N && is_udigit m1 && is_udigit m2 &&
+                    at_end r'
+                 then Some (Some [c; h1; h2; co; m1; m2]) else None
+             | _ => None
+             end
+           else None
+       | [] => None
+       end.
+
+(** Optional fraction (a dot and at least one digit), then zone and end. *)
+Definition frac_tz_end (s : str) : option (option str) :=
+  match s with
+  | c :: r =>
+      if (c =? 46)%N && negb (is_nil (take_while is_udigit r))
+      then tz_end (drop_while is_udigit r)
+      else tz_end s
+  | [] => tz_end s
+  end.
+
+(** Optional seconds group (colon, two digits, optional fraction), then zone and end. *)
+Definition sec_part (s : str) : option (Z * option str) :=
+  match s with
+  | c :: a :: b :: r =>
+      if (c =? 58)%N then
+        match two_ud a b with
+        | Some v => match frac_tz_end r with Some z => Some (v, z) | None => None end
+        | None => None
+        end
+      else match tz_end s with Some z => Some (0%Z, z) | None => None end
+  | _ => match tz_end s with Some z => Some (0%Z, z) | None => None end
+  end.
+
+(** The groups of _w3cdtf_pattern: year, month, day, hour, minute, second (defaults applied)
+    and the zone designator, stage by stage; every optional group is either matched or the
+    text must end there. *)
+Definition grp := (datetime * option str)%type.
+
+Definition after_day (y mo dd : Z) (r3 : str) : option grp :=
+  if at_end r3 then Some (mkDT y mo dd 0 0 0, None)
+  else match r3 with
+       | k3 :: h1 :: h2 :: k4 :: n1 :: n2 :: r4 =>
+           if (k3 =? 84)%N && (k4 =? 58)%N then
+             match two_ud h1 h2, two_ud n1 n2, sec_part r4 with
+             | Some hh, Some mi, Some (sec, z) => Some (mkDT y mo dd hh mi sec, z)
+             | _, _, _ => None
+             end
+           else None
+       | _ => None
+       end.
+
+Definition after_month (y mo : Z) (r2 : str) : option grp :=
+  if at_end r2 then Some (mkDT y mo 1 0 0 0, None)
+  else match r2 with
+       | k :: d1 :: d2 :: r3 =>
+           if (k =? 45)%N then
+             match two_ud d1 d2 with Some dd => after_day y mo dd r3 | None => None end
+           else None
+       | _ => None
+       end.
+
+Definition after_year (y : Z) (r1 : str) : option grp :=
+  if at_end r1 then Some (mkDT y 1 1 0 0 0, None)
+  else match r1 with
+       | k :: m1 :: m2 :: r2 =>
+           if (k =? 45)%N then
+             match two_ud m1 m2 with Some mo => after_month y mo r2 | None => None end
+           else None
+       | _ => None
+       end.
+
+Definition w3c_groups (s : str) : option grp :=
+  match s with
+  | y1 :: y2 :: y3 :: y4 :: r1 =>
+      match udigit_val y1, udigit_val y2, udigit_val y3, udigit_val y4 with
+      | Some a, Some b, Some c, Some d => after_year (10 * (10 * (10 * a + b) + c) + d)%Z r1
+      | _, _, _, _ => None
+      end
+  | _ => None
+  end.
+
+(** _parse_W3CDTF_to_datetime *)
 Definition parse_w3cdtf (s : str) : res datetime :=
-  let parseable := firstn 19 s in
-  let off := skipn 19 s in
-  let ts := fold_left (fun acc tm => match strptime tm parseable with Some t => Some t | None => acc end)
-                      templates None in
-  match ts with
+  match w3c_groups s with
   | None => Err ValueErr
-  | Some t => if Nat.eqb (length off) 6 then offset_dt t off else Ok t
+  | Some (t, z) =>
+      if valid_datetime t && in_py_range t then
+        match z with
+        | None => Ok t
+        | Some off => offset_dt t off
+        end
+      else Err ValueErr
   end.
 
 (** ---- readers ---- *)
